@@ -1,0 +1,34 @@
+//go:build verif
+
+// Copyright 2026 The Scriggo Authors. All rights reserved.
+// Use of this source code is governed by a BSD-style
+// license that can be found in the LICENSE file.
+
+package scriggo
+
+// Verification hooks for property C05 (build tag "verif", add-only): they
+// give the verification bridge verifhook/c05 the compiled function of a
+// program or template so that it can be executed by runtime.VerifC05Run.
+
+import (
+	"io"
+
+	"github.com/open2b/scriggo/internal/runtime"
+)
+
+// VerifC05RunProgram executes p like Run(&RunOptions{Print: print}) through
+// runtime.VerifC05Run.
+func VerifC05RunProgram(p *Program, print PrintFunc) runtime.VerifC05Result {
+	return runtime.VerifC05Run(p.fn, p.typeof, initPackageLevelVariables(p.globals), runtime.PrintFunc(print), nil, nil)
+}
+
+// VerifC05RunTemplate executes t like Run(out, vars, &RunOptions{Print: print})
+// through runtime.VerifC05Run.
+func VerifC05RunTemplate(t *Template, out io.Writer, vars map[string]any, print PrintFunc) runtime.VerifC05Result {
+	return runtime.VerifC05Run(t.fn, t.typeof, initGlobalVariables(t.globals, vars), runtime.PrintFunc(print), out, t.conv)
+}
+
+// VerifC05ProgramShape returns the call shape of the function name of p.
+func VerifC05ProgramShape(p *Program, name string) runtime.VerifC05CallShape {
+	return runtime.VerifC05Shape(p.fn, name)
+}
